@@ -131,52 +131,63 @@ fn involves_large(h: &[Op]) -> bool {
 // ---------------------------------------------------------------------------
 // hist
 
+/// The families of histories of the hist phase: (alphabet, exact length).  Lengths differ between
+/// families, so no history is generated twice.
+pub fn hist_families(th: bool) -> Vec<(Alpha, usize)> {
+    let small_only = |al: &mut Alpha| {
+        // the 3 MiB calloc and the over-aligned 3 MiB malloc (whose realloc always copies 3 MiB) stay in the shorter families
+        al.callocs.retain(|x| x.0 < MIB);
+        al.mallocs.retain(|x| x.0 < MIB || x.1 == 8);
+    };
+    let mut v = Vec::new();
+    if !th {
+        v.push((Alpha::new(&hist_sizes(false)), 3));
+        let mut deep = Alpha::new(&[24, 1000, 70_000, 3 * MIB]);
+        small_only(&mut deep);
+        v.push((deep, 4));
+    } else {
+        let mut full = Alpha::new(&hist_sizes(true));
+        full.callocs = full.mallocs.clone();
+        v.push((full, 3));
+        v.push((Alpha::new(&hist_sizes(false)), 4));
+        let mut deep = Alpha::new(&[24, 1000, 70_000, 3 * MIB]);
+        small_only(&mut deep);
+        deep.mallocs.retain(|x| x.1 != 64);
+        v.push((deep, 5));
+        let mut tiny = Alpha::new(&[24, 1000, 70_000]);
+        tiny.mallocs.retain(|x| x.1 == 8);
+        v.push((tiny, 6));
+    }
+    if let Some(d) = std::env::var("H_ALLOC_DEPTH").ok().and_then(|s| s.parse::<usize>().ok()) {
+        v.truncate(1);
+        v[0].1 = d;
+    }
+    v
+}
+
 pub fn hist(args: &Args) -> Report {
     let th = args.thorough;
-    let mut al = Alpha::new(&hist_sizes(th));
-    if th {
-        al.callocs = al.mallocs.clone();
-    }
-    let depth: usize = std::env::var("H_ALLOC_DEPTH").ok().and_then(|s| s.parse().ok()).unwrap_or(if th { 4 } else { 3 });
-    // deeper over a reduced alphabet: sizes that reach the small bins, the tree bins, a fresh segment and the trim path
-    let mut deep = Alpha::new(&[24, 1000, 70_000, 3 * MIB]);
-    if !th {
-        // the 3 MiB calloc and the over-aligned 3 MiB malloc (whose realloc always copies 3 MiB) are covered by the full alphabet
-        deep.callocs.retain(|x| x.0 < MIB);
-        deep.mallocs.retain(|x| x.0 < MIB || x.1 == 8);
-    }
-    let deep_depth = depth + if th { 2 } else { 1 };
-    let nsh = 64usize;
-    let pre = prefixes(2.min(depth), &al);
-    let pre_deep = prefixes(2, &deep);
+    let fams = hist_families(th);
+    let nsh = if th { 256usize } else { 64 };
     let dl = dense_limit(th);
+    // work items: (family, prefix of length 2), dealt round-robin to the shards
+    let mut work: Vec<(usize, Vec<Op>)> = Vec::new();
+    for (fi, (al, depth)) in fams.iter().enumerate() {
+        for p in prefixes(2.min(*depth), al) {
+            work.push((fi, p));
+        }
+    }
     let mut items = Vec::new();
     for sh in 0..nsh {
-        let pre = pre.clone();
-        let pre_deep = pre_deep.clone();
-        let al = al.clone();
-        let deep = deep.clone();
+        let fams = fams.clone();
+        let work: Vec<(usize, Vec<Op>)> = work.iter().enumerate().filter(|(i, _)| i % nsh == sh).map(|(_, w)| w.clone()).collect();
         items.push(isolated(format!("hist-{sh}"), move || {
             let mut r = Report::new();
             let mut w = World::new(dl);
-            for (i, p) in pre.iter().enumerate() {
-                if i % nsh != sh {
-                    continue;
-                }
-                for_each_history(p, depth, &al, &mut |h| {
+            for (fi, p) in &work {
+                let (al, depth) = &fams[*fi];
+                for_each_history(p, *depth, al, &mut |h| {
                     r.eval();
-                    r.nontrivial_unique();
-                    let c = Case::plain("hist", h.to_vec());
-                    run_case(&mut w, &c, &mut r, false);
-                });
-            }
-            for (i, p) in pre_deep.iter().enumerate() {
-                if i % nsh != sh {
-                    continue;
-                }
-                for_each_history(p, deep_depth, &deep, &mut |h| {
-                    r.eval();
-                    // longer than every history of the first family, hence distinct from all of them
                     r.nontrivial_unique();
                     let c = Case::plain("hist", h.to_vec());
                     run_case(&mut w, &c, &mut r, false);
@@ -191,15 +202,13 @@ pub fn hist(args: &Args) -> Report {
     }
     let mut r = run_isolated(items, &args.out, "C03");
     r.rule = format!(
-        "every history of exactly {depth} operations (shorter ones are their prefixes; the oracle runs after every operation) over {} with <= 3 live slots \
-         (an allocation goes to the lowest free slot); plus every history of exactly {deep_depth} operations over the reduced alphabet {}; each run starts from a fresh allocator \
-         over an empty model address space, placement policy T (Linux-like top-down first fit). Each history is generated once; every one is non-trivial (it reaches the allocator).",
-        al.describe(),
-        deep.describe()
+        "for each family (alphabet, n): every history of exactly n operations (shorter ones are their prefixes; the oracle runs after every operation) with <= 3 live slots \
+         (an allocation goes to the lowest free slot, realloc/free name any live slot); each run starts from a fresh allocator over an empty model address space, placement policy T \
+         (Linux-like top-down first fit). Families: {}. Each history is generated once (the families have different lengths); every one is non-trivial (it reaches the allocator).",
+        fams.iter().map(|(al, d)| format!("[n={d}: {}]", al.describe())).collect::<Vec<_>>().join(" ")
     );
-    r.bound("depth_full_alphabet", depth);
-    r.bound("depth_reduced_alphabet", deep_depth);
-    r.bound("sizes", json!(al.sizes));
+    r.bound("depths", json!(fams.iter().map(|f| f.1).collect::<Vec<_>>()));
+    r.bound("sizes_first_family", json!(fams[0].0.sizes));
     r.bound("max_live", 3);
     r.bound("dense_pattern_limit_bytes", dl);
     r
